@@ -81,4 +81,16 @@ def traceScan (c : Cfg) (roots : List (Node × Faults)) : List (List Call) :=
 /-- number of attempts in which `Extract` is really called -/
 def openedCount (l : List Call) : Nat := (l.filter (·.opened)).length
 
+/-- What a scan whose context is cancelled from inside the k-th `Extract` must do, read off the trace
+(`x` = `Extract` calls before it): every `handleFile` call up to AND INCLUDING the one in which the k-th
+`Extract` happens is made in full; nothing after it; the scan fails with the context error iff a call
+remained, and that one call is still counted as visited.  Result: attempts, error, visited inodes. -/
+def cancelOutcome (k : Nat) : Nat → List (List Call) → List Call × Err × Nat
+  | _, [] => ([], .none, 0)
+  | x, b :: rest =>
+    if k ≤ x + openedCount b then (b, if rest = [] then .none else .ctx, 1 + (if rest = [] then 0 else 1))
+    else
+      let r := cancelOutcome k (x + openedCount b) rest
+      (b ++ r.1, r.2.1, r.2.2 + 1)
+
 end Scalibr.Walk
